@@ -73,14 +73,14 @@ type majEntry struct {
 
 // majData is what the oracle needs, extracted from a (round-tripped) request.
 type majData struct {
-	vals     map[string]map[string]float64
-	crits    []string
-	sign     map[string]float64
-	weight   map[string]float64
-	policy   string
-	current  string
-	random   bool
-	chose    []string
+	vals    map[string]map[string]float64
+	crits   []string
+	sign    map[string]float64
+	weight  map[string]float64
+	policy  string
+	current string
+	random  bool
+	chose   []string
 }
 
 func majExtract(req M) majData {
